@@ -61,6 +61,10 @@ Definition norm_path (p : list seg) : list seg :=
 Definition all_names (l : list seg) : bool :=
   forallb (fun s => match s with SName _ => true | _ => false end) l.
 
+(** no part is ".." (address.go IsValid: [for _, part := range parts[1:] { if part == ".." ...]) *)
+Definition no_dotdot (l : list seg) : bool :=
+  forallb (fun s => match s with SDotDot => false | _ => true end) l.
+
 (** ** Create/Open decision table (orbitdb.go Create and Open around haveLocalData). *)
 Inductive decision := Refused | Proceeds.
 
@@ -97,6 +101,11 @@ Fixpoint lrun (have : bool) (ops : list lop) : list decision :=
   end.
 
 Section Address.
+  (** address.go IsValid (hence Parse) refuses an address one of whose parts after the root
+      is "..": true = the code as it stands (fix: commit ad3ae9b), false = the pinned commit.
+      The test is made on the RAW parts [strings.Split(strings.TrimPrefix(s, "/orbitdb/"), "/")[1:]],
+      before anything is cleaned or joined, and after the root has been decoded. *)
+  Variable rejects_dotdot : bool.
   (** [cid.Decode] followed by [Cid.String()]: [Some c] when the segment text decodes as a
       CID, [c] being the token of its canonical text (the same token for the canonical
       form itself). *)
@@ -116,7 +125,9 @@ Section Address.
     match trim_orbitdb s with
     | SName x :: rest =>
       match cid_decode x with
-      | Some c => Ok (c, norm_path rest)
+      | Some c =>
+        if rejects_dotdot && negb (no_dotdot rest) then Err EBadInput
+        else Ok (c, norm_path rest)
       | None => Err EBadInput
       end
     | _ => Err EBadInput
@@ -144,7 +155,10 @@ Section Address.
   Definition e_root_mismatch := @Err (N * list seg) EOther.     (* repaired code only *)
 
   (** DetermineAddress.  [root_checked] = the result is rejected when its root is not the
-      CID of the manifest just written (false = the commit under verification). *)
+      CID of the manifest just written (false = the commit under verification).
+      [rejects_dotdot] acts twice: a name of the form <cid>/.../.. is no longer an address
+      (so it is not refused as one: path.Join then cleans the ".." away), and the final
+      Parse sees a cleaned path, which has no ".." left. *)
   Definition determine_address (root_checked : bool) (creator : N)
              (name : list seg) (typ : N) (w : list N) : outcome (N * list seg) :=
     if negb (memN typ types) then e_unknown_type
